@@ -76,6 +76,8 @@ type seqCase struct {
 	closed [2]int // per direction (index = writing end): 0 open, 1 closed first by the writer, 2 closed first by the reader
 	rdl    [2]time.Time
 	wdl    [2]time.Time
+	rdlUnk [2]bool // a Set* on this side was refused: which deadline is in force is not specified
+	wdlUnk [2]bool
 	tag    [2]uint64
 	off    [2]int
 
@@ -266,11 +268,11 @@ func (a allow) String() string {
 
 func (c *seqCase) readAllow(e int) allow {
 	d := 1 - e
-	return allow{eof: c.closed[d] == 1, closedAny: c.closed[d] == 2, timeout: expired(c.rdl[e])}
+	return allow{eof: c.closed[d] == 1, closedAny: c.closed[d] == 2, timeout: expired(c.rdl[e]) || c.rdlUnk[e]}
 }
 
 func (c *seqCase) writeAllow(e int) allow {
-	return allow{closedAny: c.closed[e] != 0, timeout: expired(c.wdl[e])}
+	return allow{closedAny: c.closed[e] != 0, timeout: expired(c.wdl[e]) || c.wdlUnk[e]}
 }
 
 // probeRead: a Read that, by the model, cannot proceed must fail at once.
@@ -437,22 +439,27 @@ func (c *seqCase) setDL(e, side int, tg dlTarget, t time.Time) {
 		name = "SetDeadline"
 		err = c.p[e].SetDeadline(t)
 		c.rdl[e], c.wdl[e] = t, t
+		c.rdlUnk[e], c.wdlUnk[e] = err != nil, err != nil
 	case side == 0:
 		name = "SetReadDeadline"
 		err = c.p[e].SetReadDeadline(t)
 		c.rdl[e] = t
+		c.rdlUnk[e] = err != nil
 	default:
 		name = "SetWriteDeadline"
 		err = c.p[e].SetWriteDeadline(t)
 		c.wdl[e] = t
+		c.wdlUnk[e] = err != nil
 	}
 	if t.IsZero() {
 		c.logf("%s: %s(zero) -> %v", endName(e), name, err)
 	} else {
 		c.logf("%s: %s(%s) -> %v", endName(e), name, t.Sub(c.start), err)
 	}
-	// The return value is not specified by the statement. A refusal only happens on
-	// a closed direction, where the deadline no longer changes any predicted outcome.
+	// What Set*Deadline returns is not specified by the statement. The model only
+	// insists that it succeeds while every direction it touches is open; after a
+	// refusal (closed direction) it no longer knows which deadline is in force there
+	// and accepts a timeout as well as the close failure.
 	readOpen, writeOpen := c.closed[1-e] == 0, c.closed[e] == 0
 	touchedOpen := (tg == tBoth && readOpen && writeOpen) || (tg == tSide && side == 0 && readOpen) || (tg == tSide && side == 1 && writeOpen)
 	if err != nil && touchedOpen {
@@ -460,8 +467,10 @@ func (c *seqCase) setDL(e, side int, tg dlTarget, t time.Time) {
 	}
 }
 
-func (c *seqCase) pickTarget() dlTarget {
-	if c.r.Chance(1, 4) {
+// pickTarget: SetDeadline is used only while both directions of the end are open
+// (what it does to the open side when the other side refuses is not specified).
+func (c *seqCase) pickTarget(e int) dlTarget {
+	if c.r.Chance(1, 4) && c.closed[0] == 0 && c.closed[1] == 0 {
 		return tBoth
 	}
 	return tSide
@@ -478,7 +487,7 @@ func (c *seqCase) readTimeout(e int) {
 		return
 	}
 	T := time.Now().Add(c.pickDur())
-	c.setDL(e, 0, c.pickTarget(), T)
+	c.setDL(e, 0, c.pickTarget(e), T)
 	useWriteTo := c.r.Chance(1, 4)
 	var n int64
 	var err error
@@ -512,7 +521,7 @@ func (c *seqCase) writeTimeout(e int) {
 		k = c.r.Range(0, n-1)
 	}
 	T := time.Now().Add(c.pickDur())
-	c.setDL(e, 1, c.pickTarget(), T)
+	c.setDL(e, 1, c.pickTarget(e), T)
 	data := c.next(e, n)
 	hw := c.goWrite(e, data)
 	if !c.stillPending(hw, "Write without reader") {
@@ -681,7 +690,7 @@ func (c *seqCase) deadlineWhilePending(e, side int) {
 	if !c.stillPending(h, "call without counterpart") {
 		return
 	}
-	tg := c.pickTarget()
+	tg := c.pickTarget(e)
 	v := c.r.Intn(4)
 	var at time.Time // the instant at which the call must return
 	switch v {
@@ -816,12 +825,12 @@ func (c *seqCase) writeToStep(e int) {
 	case 0:
 		c.applyClose(d, kCloseWrite)
 	case 1:
-		c.setDL(e, 0, c.pickTarget(), at.Add(-time.Duration(c.r.Pick(0, 1))))
+		c.setDL(e, 0, c.pickTarget(e), at.Add(-time.Duration(c.r.Pick(0, 1))))
 	case 2:
 		c.applyClose(e, kCloseRead)
 	case 3:
 		at = at.Add(c.pickDur())
-		c.setDL(e, 0, c.pickTarget(), at)
+		c.setDL(e, 0, c.pickTarget(e), at)
 		c.sleepPast(at)
 	}
 	res, ok := c.finished(h, "WriteTo")
@@ -886,6 +895,69 @@ func (c *seqCase) closeStep(e int, k opKind) {
 	}
 }
 
+// expiredWithCounterpart: a call made after its deadline has passed fails with a
+// timeout and transfers nothing even though its counterpart is waiting.
+func (c *seqCase) expiredWithCounterpart(e, side int) {
+	p := 1 - e
+	if side == 0 && (c.closed[p] != 0 || !c.canWrite(p)) || side == 1 && (c.closed[e] != 0 || !c.canRead(p)) {
+		return
+	}
+	if side == 0 && !expired(c.rdl[e]) || side == 1 && !expired(c.wdl[e]) {
+		c.setDL(e, side, tSide, time.Now().Add(-time.Duration(c.r.Pick(0, 1, 1000000000))))
+	}
+	var h chan seqRes
+	if side == 0 {
+		h = c.goWrite(p, c.next(p, c.r.Range(1, 9))) // never consumed: the offset does not move
+	} else {
+		h = c.goRead(p, c.r.Range(1, 9))
+	}
+	if !c.stillPending(h, "counterpart") {
+		return
+	}
+	t0 := c.vt()
+	var n int64
+	var err error
+	what := "Read"
+	switch {
+	case side == 1:
+		what = "Write"
+		var k int
+		k, err = c.p[e].Write(make([]byte, c.r.Range(1, 9)))
+		n = int64(k)
+	case c.r.Chance(1, 3):
+		what = "WriteTo"
+		n, err = c.p[e].WriteTo(&seqSink{budget: -1})
+	default:
+		var k int
+		k, err = c.p[e].Read(make([]byte, c.r.Range(1, 9)))
+		n = int64(k)
+	}
+	c.logf("%s: %s past its deadline -> %d, %v", endName(e), what, n, err)
+	if n != 0 || !isTimeout(err) || c.vt() != t0 {
+		c.fail("io-after-deadline", "%s.%s called after its deadline had passed, with a counterpart waiting, returned n=%d err=%v", endName(e), what, n, err)
+		return
+	}
+	if !c.stillPending(h, "counterpart of a timed-out call") {
+		return
+	}
+	// release the counterpart by its own deadline and put that deadline back
+	old := c.rdl[p]
+	if side == 0 {
+		old = c.wdl[p]
+	}
+	c.setDL(p, 1-side, tSide, time.Now())
+	res, ok := c.finished(h, "counterpart")
+	if !ok {
+		return
+	}
+	if res.n != 0 || !isTimeout(res.err) || res.vt != t0 {
+		c.fail("wrong-timeout", "counterpart released by a past deadline returned n=%d err=%v", res.n, res.err)
+		return
+	}
+	c.setDL(p, 1-side, tSide, old)
+	c.beh[fmt.Sprintf("expired-call-with-waiting-counterpart:%s", what)] = true
+}
+
 func (c *seqCase) setMisc() {
 	e, side := c.r.Intn(2), c.r.Intn(2)
 	var t time.Time
@@ -895,7 +967,7 @@ func (c *seqCase) setMisc() {
 	case 1:
 		t = time.Now().Add(c.pickDur())
 	}
-	c.setDL(e, side, c.pickTarget(), t)
+	c.setDL(e, side, c.pickTarget(e), t)
 }
 
 func (c *seqCase) run() {
@@ -923,9 +995,12 @@ func (c *seqCase) run() {
 		case v < 68:
 			c.setStep("writeto")
 			c.writeToStep(e)
-		case v < 76:
+		case v < 72:
 			c.setStep("set-deadline")
 			c.setMisc()
+		case v < 76:
+			c.setStep("expired-with-counterpart")
+			c.expiredWithCounterpart(e, c.r.Intn(2))
 		case v < 82:
 			c.setStep("sleep")
 			c.sleep(time.Duration(c.r.Pick(1, 2, 5, 20, 2000)) * time.Millisecond)
@@ -955,7 +1030,7 @@ func (c *seqCase) run() {
 func runSequential(e *core.Env) {
 	rec := e.Rec
 	rec.Rule("sequential: one case = 6..24 lock-step moves over one pipe by one writer and one reader (a helper goroutine per blocking call, synctest.Wait between moves): transfers with buffers 0..n+ (reader or writer first, zero-length writes), read/write timeouts with k of n bytes consumed, deadlines set / zeroed / moved / re-armed while a call is pending, WriteTo ended by CloseWrite, deadline, CloseRead or its writer's short write, closes with a call pending and with nothing pending followed by probes of every affected call and a transfer in the reverse direction; each outcome (n, error class, bytes, virtual instant) is predicted by a model; class = (move, variant, context) that completed with the predicted outcome")
-	n := e.N(3000, 150000)
+	n := e.N(3000, 60000)
 	core.Parallel(e, "sequential", n, 16, func(i int) {
 		r := core.NewRNG(e.Seed, "c15.seq", i)
 		rec.Begin("sequential", i, "")
